@@ -98,18 +98,3 @@ func VerifDialLate() {
 	verifAssert(verifGoroutines() == 0, "no goroutine is left after Close")
 	verifReach("late-dial")
 }
-
-// VerifClientAddr (C20): the client keys its connections by the address it asked for and
-// recognises an existing connection by RegionClient.Addr(): a region client reports exactly
-// the address it was created with, whatever its spelling (case, brackets, blanks, trailing dot).
-func VerifClientAddr() {
-	// representative spellings (symbolic strings are beyond the engine's string library model)
-	addr := []string{"rs1:16020", "RS-1.Example.COM:16020", "[::1]:16020", "10.0.0.1:16020", " rs1:16020 ", "rs1.:16020"}[verifChoose(6)]
-	ctype := RegionClient
-	if verifBool() {
-		ctype = MasterClient
-	}
-	rc := NewClient(addr, ctype, 2, 0, "user", 0, nil, nil, vLogger())
-	verifAssert(rc.Addr() == addr, "a region client reports the address it was created with")
-	verifReach("addr")
-}
